@@ -131,6 +131,41 @@ def _expr(b, piece):
     return e
 
 
+def _piecewise(rso, b, convex, gs, off, use_e):
+    """max(gs) (convex) / min(gs), optionally under E(.), written directly or - with off = [hkind, form, pos] - as the
+    SAME function with an offset h:  F(g-h)+h, h+F(g-h), F(g+h)-h, h-G(h-g), 2*F(g/2), -G(-g); pos 'in' applies the form
+    to the piecewise function before E(.), 'out' to the expectation object (h constant or a static decision)."""
+    F, G = (rso.maxof, rso.minof) if convex else (rso.minof, rso.maxof)
+    if not off:
+        e = F(*gs)
+        return rso.E(e) if use_e else e
+    hk, form, pos = off
+    if hk == 'y' and b.y is None:
+        hk = 'x'
+    h = {'const': 1.25, 'x': 0.5 * b.x[0] + 0.25, 'z': 0.5 * b.z[0] - 0.25,
+         'y': (0.5 * b.y[0]) if b.y is not None else None}[hk]
+    outside = use_e and pos == 'out'
+    if outside and hk in ('z', 'y'):
+        raise ValueError('offset kind %s is not available outside E(.)' % hk)
+    W = rso.E if outside else (lambda e: e)
+    b.ops += 2 * len(gs) + 2
+    if form == 'add':
+        e = W(F(*[g - h for g in gs])) + h
+    elif form == 'radd':
+        e = h + W(F(*[g - h for g in gs]))
+    elif form == 'sub':
+        e = W(F(*[g + h for g in gs])) - h
+    elif form == 'rsub':
+        e = h - W(G(*[h - g for g in gs]))
+    elif form == 'mul':
+        e = 2 * W(F(*[0.5 * g for g in gs]))
+    elif form == 'neg':
+        e = -W(G(*[-g for g in gs]))
+    else:
+        raise ValueError(form)
+    return rso.E(e) if (use_e and not outside) else e
+
+
 def build(rsome, spec):
     from rsome import dro
     rso = rsome
@@ -172,10 +207,10 @@ def build(rsome, spec):
     pcs = [_expr(b, pc) for pc in o['pieces']]
     if len(pcs) == 1:
         e = pcs[0]
+        if o.get('E'):
+            e = rso.E(e)
     else:
-        e = rso.maxof(*pcs) if o['kind'] in ('min', 'minsup') else rso.minof(*pcs)
-    if o.get('E'):
-        e = rso.E(e)
+        e = _piecewise(rso, b, o['kind'] in ('min', 'minsup'), pcs, spec.get('pwoff'), bool(o.get('E')))
     if o['kind'] in ('min', 'max'):
         getattr(m, o['kind'])(e)
     else:
@@ -184,9 +219,13 @@ def build(rsome, spec):
     m.st(x >= np.array(spec['xlo'], float), x <= np.array(spec['xhi'], float))
     b.ops += 1
     for row in spec['rows']:
-        g = _expr(b, row)
-        if row.get('E'):
-            g = rso.E(g)
+        if 'pieces' in row:
+            gs = [_expr(b, dict(pc, style=row.get('style', 'A'))) for pc in row['pieces']]
+            g = _piecewise(rso, b, row['sense'] == '<=', gs, spec.get('pwoff'), bool(row.get('E')))
+        else:
+            g = _expr(b, row)
+            if row.get('E'):
+                g = rso.E(g)
         con = (g <= 0) if row['sense'] == '<=' else (g >= 0) if row['sense'] == '>=' else (g == 0)
         name = row.get('set')
         if name == 'F2':
